@@ -1,5 +1,6 @@
 import SdJwt.Lemmas.IssuerL
 import SdJwt.Lemmas.IssueAll
+import SdJwt.Lemmas.Defined
 /-!
 # C14 — issuing is total, side-effect free and repeatable
 
@@ -88,3 +89,43 @@ example :
     (markAll (fun _ _ _ => "dg") 0 [(["n"], "1")] T).map (fun r => r.1.payload)
       = some (.obj [("n", .arr [.str "a", .obj [("...", .str "dg")]])]) := by
   rfl
+
+/-- **Valid markings succeed, in the property's own terms.** Issuing succeeds *whenever each path
+addresses an existing member or element, nested paths precede enclosing ones and no path repeats*:
+`Addressable T a` — the tokens of the path lead through existing (not yet hidden) members /
+elements of the claims to an existing one that is not a reserved name, a token that addresses an
+array element being the canonical decimal of its index (`/a/1`, not `/a/01` or `/a/+1`, which
+alias the same element and are left to the run; member names are unrestricted: `"01"` is a fine
+name) — `canMarkChild_obj`, `canMarkChild_arr` spell this out for claims in which nothing is
+hidden; `NestedFirst` — no later path is equal to or inside an earlier one; and the digests
+are fresh: the digest function never returns the same value for two different draws, nor a
+string the claims already contain as a digest. This discharges the hypothesis `markAll … = some _`
+of `C14_valid_ok`, `C01_end_to_end`, `C07_issue`. -/
+theorem C14_valid_marking_ok (mk : Nat → Option String → J → String)
+    (hmk : ∀ i j k v k' v', mk i k v = mk j k' v' → i = j)
+    (paths : List String) (addr : List (List String × String)) (T : MJ) (wf : T.WF)
+    (hp : ParsedAll paths addr)
+    (haddr : ∀ a ∈ addr, Addressable T a)
+    (hnf : NestedFirst addr)
+    (hfresh : ∀ g ∈ T.digests, ∀ j k v, g ≠ mk j k v) :
+    ∃ r, applyPaths mk 0 T.payload paths = .ok r := by
+  obtain ⟨Tn, ds, h⟩ := markAll_defined mk hmk addr 0 T haddr hnf (fun g hg j k v _ => hfresh g hg j k v)
+  exact C14_valid_ok mk paths addr T Tn ds wf hp h
+
+/-- non-vacuity: `{"a":{"b":1,"c":2},"n":["x","y"]}` with `/a/b`, `/n/1`, `/a` (nested before
+enclosing, only nested and array paths first): every hypothesis holds -/
+example :
+    let T : MJ := .obj (.clear "a" (.obj (.clear "b" (.leaf (.num 1 0)) (.clear "c" (.leaf (.num 2 0)) .nil)) none)
+                  (.clear "n" (.arr (.clear (.leaf (.str "x")) (.clear (.leaf (.str "y")) .nil))) .nil)) none
+    let addr : List (List String × String) := [(["a"], "b"), (["n"], "1"), ([], "a")]
+    (∀ a ∈ addr, Addressable T a) ∧ NestedFirst addr := by
+  refine ⟨?_, ?_⟩
+  · intro a ha
+    simp only [List.mem_cons, List.not_mem_nil, or_false] at ha
+    rcases ha with rfl | rfl | rfl <;> (unfold Addressable; rfl)
+  · simp only [NestedFirst, List.mem_cons, List.not_mem_nil, or_false, and_true]
+    refine ⟨?_, ?_, ?_⟩
+    · intro b hb; rcases hb with rfl | rfl <;> decide
+    · intro b hb; subst hb; decide
+    · intro b hb; cases hb
+
